@@ -22,6 +22,9 @@ type writer[SizeT size, Req any, Resp any] struct {
 	req       Request[Req]
 	buf       bytes.Buffer
 	chunkSize SizeT
+	// err is the error that ended the stream: once a chunk could not be sent
+	// nothing more can be, and every later Write and Close reports it.
+	err error
 }
 
 func New[SizeT size, Req any, Resp any](chunkSize SizeT, stream Stream[Req, Resp], req Request[Req]) *writer[SizeT, Req, Resp] {
@@ -33,6 +36,10 @@ func New[SizeT size, Req any, Resp any](chunkSize SizeT, stream Stream[Req, Resp
 }
 
 func (w *writer[SizeT, Req, Resp]) Write(p []byte) (int, error) {
+	if w.err != nil {
+		return 0, w.err
+	}
+
 	_, _ = w.buf.Write(p)
 	buf := make([]byte, w.chunkSize)
 	for w.buf.Len() >= int(w.chunkSize) {
@@ -47,6 +54,10 @@ func (w *writer[SizeT, Req, Resp]) Write(p []byte) (int, error) {
 }
 
 func (w *writer[SizeT, Req, Resp]) Close() error {
+	if w.err != nil {
+		return w.err
+	}
+
 	data := w.buf.Bytes()
 	if len(data) > 0 {
 		err := w.send(w.buf.Bytes())
@@ -70,8 +81,11 @@ func (w *writer[SizeT, Req, Resp]) send(p []byte) error {
 	if errors.Is(err, io.EOF) {
 		_, rErr := w.stream.CloseAndRecv()
 		if rErr != nil {
-			return rErr
+			err = rErr
 		}
+	}
+	if err != nil {
+		w.err = err
 	}
 
 	return err
